@@ -1,1042 +1,17 @@
-//! Conformance harness for text2num-rs: a *dumb executor*.
-//!
-//! It contains no linguistic knowledge and no oracle. It reads requests (ndjson)
-//! generated by the TLA+ specification (TLC), drives the real code built from
-//! /repo's current working tree (public API + the `text2num_verif` hooks), and
-//! writes one observation record per request (ndjson). Verdicts are reached by
-//! TLC on those observations, never here.
-//!
-//! usage: t2n-harness <mode> <requests.ndjson> <observations.ndjson>
-//!   modes: text | ds | apply | scan | threads | chars
+//! t2n-harness <mode> <requests.ndjson> <observations.ndjson>   (see lib.rs)
 
-use std::cell::{Cell, RefCell};
 use std::fs::File;
-use std::io::{BufRead, BufReader, BufWriter, Write};
-use std::panic::{catch_unwind, AssertUnwindSafe};
-use std::sync::Arc;
-
-use serde_json::{json, Map, Value};
-
-use text2num::digit_string::DigitString;
-use text2num::error::Error;
-use text2num::lang::{
-    Dutch, English, French, German, Italian, LangInterpreter, MorphologicalMarker, Portuguese,
-    Spanish,
-};
-use text2num::verif::{tokenize, BasicToken};
-use text2num::{
-    find_numbers, find_numbers_iter, get_interpreter_for, replace_numbers_in_stream,
-    replace_numbers_in_text, text2digits, Language, Occurence, Replace, Token,
-};
-
-// ---------------------------------------------------------------------------
-// helpers
-
-fn panic_msg(e: Box<dyn std::any::Any + Send>) -> String {
-    if let Some(s) = e.downcast_ref::<&str>() {
-        s.to_string()
-    } else if let Some(s) = e.downcast_ref::<String>() {
-        s.clone()
-    } else {
-        "panic".to_string()
-    }
-}
-
-fn guarded<F: FnOnce() -> Value>(f: F) -> Value {
-    match catch_unwind(AssertUnwindSafe(f)) {
-        Ok(v) => v,
-        Err(e) => json!({ "panic": panic_msg(e) }),
-    }
-}
-
-fn parse_thr(v: &Value) -> f64 {
-    match v {
-        Value::String(s) => match s.as_str() {
-            "nan" | "NaN" => f64::NAN,
-            "inf" => f64::INFINITY,
-            "-inf" => f64::NEG_INFINITY,
-            other => other.parse::<f64>().unwrap_or(0.0),
-        },
-        Value::Number(n) => n.as_f64().unwrap_or(0.0),
-        _ => 0.0,
-    }
-}
-
-fn fmt_f64(v: f64) -> String {
-    if v.is_nan() {
-        "nan".to_string()
-    } else if v.is_infinite() {
-        if v > 0.0 {
-            "inf".to_string()
-        } else {
-            "-inf".to_string()
-        }
-    } else {
-        format!("{}", v)
-    }
-}
-
-fn err_name(e: &Error) -> &'static str {
-    match e {
-        Error::Overlap => "overlap",
-        Error::NaN => "nan",
-        Error::Incomplete => "incomplete",
-        Error::Frozen => "frozen",
-    }
-}
-
-/// f64 reading (std `str::parse`) of the leading "digits [mark digits]" part of a numeral text, mark ',' or '.';
-/// "" when the text does not start that way or is a fraction form. No knowledge of the library is involved.
-fn parsed_value(text: &str) -> String {
-    if text.contains('/') {
-        return String::new();
-    }
-    let mut s = String::new();
-    let mut seen_mark = false;
-    for c in text.chars() {
-        if c.is_ascii_digit() {
-            s.push(c);
-        } else if (c == ',' || c == '.') && !seen_mark && !s.is_empty() {
-            seen_mark = true;
-            s.push('.');
-        } else {
-            break;
-        }
-    }
-    match s.parse::<f64>() {
-        Ok(v) => fmt_f64(v),
-        Err(_) => String::new(),
-    }
-}
-
-fn occ_json(o: &Occurence) -> Value {
-    json!({"s": o.start, "e": o.end, "t": o.text, "v": fmt_f64(o.value), "o": o.is_ordinal, "pv": parsed_value(&o.text)})
-}
-
-fn occs_json(v: &[Occurence]) -> Value {
-    Value::Array(v.iter().map(occ_json).collect())
-}
-
-fn marker_json(m: &MorphologicalMarker) -> Value {
-    match m {
-        MorphologicalMarker::Ordinal(s) => json!(format!("ord:{}", s)),
-        MorphologicalMarker::Fraction(s) => json!(format!("frac:{}", s)),
-        MorphologicalMarker::None => json!("none"),
-    }
-}
-
-fn ds_json(ds: &DigitString) -> Map<String, Value> {
-    let mut m = Map::new();
-    m.insert("r".into(), json!(ds.to_string()));
-    m.insert(
-        "b".into(),
-        json!(String::from_utf8_lossy(&ds[..]).to_string()),
-    );
-    m.insert("len".into(), json!(ds.len()));
-    m.insert("empty".into(), json!(ds.is_empty()));
-    m.insert("null".into(), json!(ds.is_null()));
-    m.insert("fz".into(), json!(ds.verif_is_frozen()));
-    m.insert("lz".into(), json!(ds.verif_leading_zeroes()));
-    m.insert("fl".into(), json!(ds.flags));
-    m.insert("mk".into(), marker_json(&ds.marker));
-    m
-}
-
-// ---------------------------------------------------------------------------
-// interpreters: created once per process and reused (C14 checks that this is sound)
-
-struct Interps {
-    de: German,
-    en: English,
-    es: Spanish,
-    fr: French,
-    it: Italian,
-    nl: Dutch,
-    pt: Portuguese,
-    f_de: Language,
-    f_en: Language,
-    f_es: Language,
-    f_fr: Language,
-    f_it: Language,
-    f_nl: Language,
-    f_pt: Language,
-}
-
-impl Interps {
-    fn new() -> Self {
-        Interps {
-            de: German::new(),
-            en: English::new(),
-            es: Spanish::new(),
-            fr: French::new(),
-            it: Italian::new(),
-            nl: Dutch::new(),
-            pt: Portuguese::new(),
-            f_de: Language::german(),
-            f_en: Language::english(),
-            f_es: Language::spanish(),
-            f_fr: Language::french(),
-            f_it: Language::italian(),
-            f_nl: Language::dutch(),
-            f_pt: Language::portuguese(),
-        }
-    }
-}
-
-/// A request handler generic over the interpreter type.
-trait Handler {
-    fn run<L: LangInterpreter>(&self, lang: &L, req: &Value) -> Value;
-}
-
-fn dispatch<H: Handler>(h: &H, ix: &Interps, req: &Value, fresh: bool) -> Value {
-    let lang = req["lang"].as_str().unwrap_or("");
-    let via = req["via"].as_str().unwrap_or("concrete");
-    match via {
-        "concrete" if fresh => match lang {
-            "de" => h.run(&German::new(), req),
-            "en" => h.run(&English::new(), req),
-            "es" => h.run(&Spanish::new(), req),
-            "fr" => h.run(&French::new(), req),
-            "it" => h.run(&Italian::new(), req),
-            "nl" => h.run(&Dutch::new(), req),
-            "pt" => h.run(&Portuguese::new(), req),
-            _ => json!({"tool_error": "unknown language"}),
-        },
-        "concrete" => match lang {
-            "de" => h.run(&ix.de, req),
-            "en" => h.run(&ix.en, req),
-            "es" => h.run(&ix.es, req),
-            "fr" => h.run(&ix.fr, req),
-            "it" => h.run(&ix.it, req),
-            "nl" => h.run(&ix.nl, req),
-            "pt" => h.run(&ix.pt, req),
-            _ => json!({"tool_error": "unknown language"}),
-        },
-        "facade" if fresh => match lang {
-            "de" => h.run(&Language::german(), req),
-            "en" => h.run(&Language::english(), req),
-            "es" => h.run(&Language::spanish(), req),
-            "fr" => h.run(&Language::french(), req),
-            "it" => h.run(&Language::italian(), req),
-            "nl" => h.run(&Language::dutch(), req),
-            "pt" => h.run(&Language::portuguese(), req),
-            _ => json!({"tool_error": "unknown language"}),
-        },
-        "facade" => match lang {
-            "de" => h.run(&ix.f_de, req),
-            "en" => h.run(&ix.f_en, req),
-            "es" => h.run(&ix.f_es, req),
-            "fr" => h.run(&ix.f_fr, req),
-            "it" => h.run(&ix.f_it, req),
-            "nl" => h.run(&ix.f_nl, req),
-            "pt" => h.run(&ix.f_pt, req),
-            _ => json!({"tool_error": "unknown language"}),
-        },
-        "lookup" => match catch_unwind(|| get_interpreter_for(lang)) {
-            Ok(Some(l)) => {
-                let mut v = h.run(&l, req);
-                if let Value::Object(ref mut m) = v {
-                    m.insert("lookup".into(), json!("some"));
-                }
-                v
-            }
-            Ok(None) => json!({"lookup": "none"}),
-            Err(e) => json!({"lookup": "panic", "panic": panic_msg(e)}),
-        },
-        _ => json!({"tool_error": "unknown via"}),
-    }
-}
-
-// ---------------------------------------------------------------------------
-// mode text
-
-fn wants(req: &Value, key: &str) -> bool {
-    match req.get("want") {
-        Some(Value::Array(a)) => a.iter().any(|x| x.as_str() == Some(key)),
-        _ => false,
-    }
-}
-
-fn is_glue(t: &str) -> bool {
-    t == "-" || t.chars().all(char::is_whitespace)
-}
-
-struct TextHandler;
-
-fn st_ok(v: Value) -> Value {
-    json!({"st": "ok", "v": v})
-}
-
-/// run `f`, normalise to {"st": "ok"|"panic", "v": ...}
-fn shaped<F: FnOnce() -> Value>(f: F) -> Value {
-    match catch_unwind(AssertUnwindSafe(f)) {
-        Ok(v) => st_ok(v),
-        Err(e) => json!({"st": "panic", "v": panic_msg(e)}),
-    }
-}
-
-fn t2d_shaped<L: LangInterpreter>(text: &str, lang: &L) -> Value {
-    match catch_unwind(AssertUnwindSafe(|| text2digits(text, lang))) {
-        Ok(Ok(s)) => json!({"st": "ok", "v": s}),
-        Ok(Err(e)) => json!({"st": "err", "v": err_name(&e)}),
-        Err(e) => json!({"st": "panic", "v": panic_msg(e)}),
-    }
-}
-
-fn text_one<L: LangInterpreter>(lang: &L, text: &str, thr: f64, req: &Value) -> Value {
-    let mut out = Map::new();
-    if wants(req, "t2d") {
-        out.insert("t2d".into(), t2d_shaped(text, lang));
-    }
-    if wants(req, "rew") {
-        out.insert(
-            "rew".into(),
-            shaped(|| json!(replace_numbers_in_text(text, lang, thr))),
-        );
-    }
-    let need_tokens = ["toks", "occs", "occs_raw", "iter", "span_t2d", "word_t2d"]
-        .iter()
-        .any(|k| wants(req, k));
-    if need_tokens {
-        let r = catch_unwind(AssertUnwindSafe(|| {
-            let mut m = Map::new();
-            let mut tokens: Vec<BasicToken> = tokenize(text).collect();
-            let raw_occs = if wants(req, "occs_raw") || wants(req, "word_t2d") {
-                Some(find_numbers(tokens.iter(), lang, thr))
-            } else {
-                None
-            };
-            lang.basic_annotate(&mut tokens);
-            if wants(req, "toks") {
-                m.insert(
-                    "toks".into(),
-                    Value::Array(tokens.iter().map(|t| json!(t.text)).collect()),
-                );
-                m.insert(
-                    "nan".into(),
-                    Value::Array(
-                        tokens
-                            .iter()
-                            .enumerate()
-                            .filter(|(_, t)| t.nan)
-                            .map(|(i, _)| json!(i))
-                            .collect(),
-                    ),
-                );
-            }
-            let occs = find_numbers(tokens.iter(), lang, thr);
-            if wants(req, "occs") {
-                m.insert("occs".into(), occs_json(&occs));
-            }
-            if let Some(ref ro) = raw_occs {
-                if wants(req, "occs_raw") {
-                    m.insert("occs_raw".into(), occs_json(ro));
-                }
-            }
-            if wants(req, "iter") {
-                let it: Vec<Occurence> = find_numbers_iter(tokens.iter(), lang, thr).collect();
-                m.insert("iter".into(), occs_json(&it));
-            }
-            if wants(req, "span_t2d") {
-                // validate exactly the words of each span on their own
-                let mut v = Vec::new();
-                for o in occs.iter() {
-                    if o.start <= o.end && o.end <= tokens.len() {
-                        let words: Vec<&str> = tokens[o.start..o.end]
-                            .iter()
-                            .map(|t| t.text.as_str())
-                            .filter(|t| !is_glue(t))
-                            .collect();
-                        let phrase = words.join(" ");
-                        let mut r = t2d_shaped(&phrase, lang);
-                        r["phrase"] = json!(phrase);
-                        v.push(r);
-                    } else {
-                        v.push(json!({"st": "bad_span", "v": "", "phrase": ""}));
-                    }
-                }
-                m.insert("span_t2d".into(), Value::Array(v));
-            }
-            if wants(req, "word_t2d") {
-                // every significant token outside all un-annotated occurrences that validates alone
-                let ro = raw_occs.as_ref().unwrap();
-                let mut v = Vec::new();
-                for (i, t) in tokens.iter().enumerate() {
-                    if is_glue(&t.text) {
-                        continue;
-                    }
-                    if ro.iter().any(|o| o.start <= i && i < o.end) {
-                        continue;
-                    }
-                    let r = t2d_shaped(&t.text, lang);
-                    if r["st"] != "err" {
-                        v.push(json!({"i": i, "w": t.text, "st": r["st"], "v": r["v"]}));
-                    }
-                }
-                m.insert("word_t2d".into(), Value::Array(v));
-            }
-            m
-        }));
-        match r {
-            Ok(m) => {
-                out.insert("tk".into(), json!("ok"));
-                for (k, v) in m {
-                    out.insert(k, v);
-                }
-            }
-            Err(e) => {
-                out.insert("tk".into(), json!("panic"));
-                out.insert("tk_panic".into(), json!(panic_msg(e)));
-            }
-        }
-    }
-    Value::Object(out)
-}
-
-impl Handler for TextHandler {
-    fn run<L: LangInterpreter>(&self, lang: &L, req: &Value) -> Value {
-        let thr = parse_thr(&req["thr"]);
-        if let Some(texts) = req.get("texts").and_then(|x| x.as_array()) {
-            // several texts (twins: re-cased, re-spaced, A/S/B parts, ...) and/or several thresholds
-            let thrs: Vec<f64> = match req.get("thrs").and_then(|x| x.as_array()) {
-                Some(a) => a.iter().map(parse_thr).collect(),
-                None => vec![thr],
-            };
-            let mut all = Vec::new();
-            for t in texts {
-                let t = t.as_str().unwrap_or("");
-                for th in thrs.iter() {
-                    all.push(text_one(lang, t, *th, req));
-                }
-            }
-            json!({ "multi": all })
-        } else {
-            text_one(lang, req["text"].as_str().unwrap_or(""), thr, req)
-        }
-    }
-}
-
-// ---------------------------------------------------------------------------
-// mode apply: word-by-word `apply` / `apply_decimal` on one DigitString
-
-struct ApplyHandler;
-
-impl Handler for ApplyHandler {
-    fn run<L: LangInterpreter>(&self, lang: &L, req: &Value) -> Value {
-        let dec = req["dec"].as_bool().unwrap_or(false);
-        let mut ds = DigitString::new();
-        let mut steps = Vec::new();
-        if let Some(words) = req["words"].as_array() {
-            for w in words {
-                let w = w.as_str().unwrap_or("");
-                let st = match catch_unwind(AssertUnwindSafe(|| {
-                    if dec {
-                        lang.apply_decimal(w, &mut ds)
-                    } else {
-                        lang.apply(w, &mut ds)
-                    }
-                })) {
-                    Ok(Ok(())) => "ok".to_string(),
-                    Ok(Err(e)) => err_name(&e).to_string(),
-                    Err(_) => "panic".to_string(),
-                };
-                let mut m = ds_json(&ds);
-                m.insert("st".into(), json!(st));
-                m.insert("sep".into(), json!(lang.is_decimal_sep(w)));
-                m.insert("link".into(), json!(lang.is_linking(w)));
-                steps.push(Value::Object(m));
-            }
-        }
-        let fmt = shaped(|| {
-            if ds.is_empty() {
-                json!({"t": "", "v": ""})
-            } else {
-                let (s, v) = lang.format_and_value(&ds);
-                json!({"t": s, "v": fmt_f64(v)})
-            }
-        });
-        json!({ "steps": steps, "fmt": fmt })
-    }
-}
-
-// ---------------------------------------------------------------------------
-// mode ds: operation sequences on the public digit builder
-
-fn run_ds(req: &Value) -> Value {
-    // one flat event per step: the operation echoed back + the projection after it
-    let mut ds = DigitString::new();
-    let mut steps = Vec::new();
-    let empty = Vec::new();
-    for (k, op) in req["ops"].as_array().unwrap_or(&empty).iter().enumerate() {
-        let name = op["op"].as_str().unwrap_or("");
-        let sarg = op["a"].as_str().unwrap_or("").to_string();
-        let p = op["p"].as_u64().unwrap_or(0) as usize;
-        let q = op["q"].as_u64().unwrap_or(0) as usize;
-        let res: Result<String, _> = catch_unwind(AssertUnwindSafe(|| {
-            let r = |x: Result<(), Error>| match x {
-                Ok(()) => "ok".to_string(),
-                Err(e) => err_name(&e).to_string(),
-            };
-            match name {
-                "put" => r(ds.put(sarg.as_bytes())),
-                "pda" => r(ds.put_digit_at(sarg.as_bytes().first().copied().unwrap_or(b'0'), p)),
-                "shift" => r(ds.shift(p)),
-                "fput" => r(ds.fput(sarg.as_bytes())),
-                "push" => r(ds.push(sarg.as_bytes())),
-                "freeze" => {
-                    ds.freeze();
-                    "ok".to_string()
-                }
-                "reset" => {
-                    ds.reset();
-                    "ok".to_string()
-                }
-                "peek" => format!("pk:{}", String::from_utf8_lossy(ds.peek(p))),
-                "is_free" => ds.is_free(p).to_string(),
-                "irf" => ds.is_range_free(p, q).to_string(),
-                "ipf" => ds.is_position_free(p).to_string(),
-                "is_ordinal" => ds.is_ordinal().to_string(),
-                _ => "tool_error".to_string(),
-            }
-        }));
-        let st = match res {
-            Ok(v) => v,
-            Err(_) => "panic".to_string(),
-        };
-        let proj = catch_unwind(AssertUnwindSafe(|| ds_json(&ds)));
-        let mut m = match proj {
-            Ok(m) => m,
-            Err(_) => {
-                let mut m = Map::new();
-                m.insert("proj_panic".into(), json!(true));
-                m
-            }
-        };
-        m.insert("st".into(), json!(st));
-        m.insert("k".into(), json!(k + 1));
-        m.insert("op".into(), json!(name));
-        m.insert("a".into(), json!(sarg));
-        m.insert("p".into(), json!(p));
-        m.insert("q".into(), json!(q));
-        if let Some(i) = req.get("i") {
-            m.insert("i".into(), i.clone());
-        }
-        steps.push(Value::Object(m));
-    }
-    json!({ "flat": steps })
-}
-
-// ---------------------------------------------------------------------------
-// mode scan: token streams with hints; batch, lazy iterator, stepwise (hooks), stream rewrite
-
-thread_local! {
-    static SEP_CALLS: RefCell<Vec<(usize, usize)>> = RefCell::new(Vec::new());
-    static REPLACE_CALLS: RefCell<Vec<(String, Vec<i64>)>> = RefCell::new(Vec::new());
-}
-
-#[derive(Debug, Clone)]
-struct HTok {
-    id: i64,
-    text: String,
-    lower: String,
-    sep: bool,
-    sp: Option<usize>,
-    nan: bool,
-    made_from: Vec<i64>,
-}
-
-impl Token for &HTok {
-    fn text(&self) -> &str {
-        &self.text
-    }
-    fn text_lowercase(&self) -> &str {
-        &self.lower
-    }
-    fn nt_separated(&self, previous: &Self) -> bool {
-        SEP_CALLS.with(|c| c.borrow_mut().push((self.id as usize, previous.id as usize)));
-        self.sep
-            && match self.sp {
-                Some(p) => previous.id as usize == p,
-                None => true,
-            }
-    }
-    fn not_a_number_part(&self) -> bool {
-        self.nan
-    }
-}
-
-impl Replace for HTok {
-    fn replace<I: Iterator<Item = Self>>(replaced: I, data: String) -> Self {
-        let ids: Vec<i64> = replaced.map(|t| t.id).collect();
-        REPLACE_CALLS.with(|c| c.borrow_mut().push((data.clone(), ids.clone())));
-        HTok {
-            id: -1,
-            lower: data.to_lowercase(),
-            text: data,
-            sep: false,
-            sp: None,
-            nan: false,
-            made_from: ids,
-        }
-    }
-}
-
-struct Counting<'a, I> {
-    inner: I,
-    pulled: &'a Cell<usize>,
-}
-
-impl<'a, I: Iterator> Iterator for Counting<'a, I> {
-    type Item = I::Item;
-    fn next(&mut self) -> Option<I::Item> {
-        let r = self.inner.next();
-        if r.is_some() {
-            self.pulled.set(self.pulled.get() + 1);
-        }
-        r
-    }
-}
-
-struct ScanHandler;
-
-impl Handler for ScanHandler {
-    fn run<L: LangInterpreter>(&self, lang: &L, req: &Value) -> Value {
-        let thr = parse_thr(&req["thr"]);
-        let empty = Vec::new();
-        let toks: Vec<HTok> = req["toks"]
-            .as_array()
-            .unwrap_or(&empty)
-            .iter()
-            .enumerate()
-            .map(|(i, t)| {
-                let text = t["t"].as_str().unwrap_or("").to_string();
-                let lower = match t.get("l").and_then(|x| x.as_str()) {
-                    Some(l) => l.to_string(),
-                    None => text.to_lowercase(),
-                };
-                HTok {
-                    id: i as i64,
-                    lower,
-                    text,
-                    sep: t["sep"].as_bool().unwrap_or(false),
-                    sp: t.get("sp").and_then(|x| x.as_u64()).map(|x| x as usize),
-                    nan: t["nan"].as_bool().unwrap_or(false),
-                    made_from: Vec::new(),
-                }
-            })
-            .collect();
-        let mut out = Map::new();
-        if wants(req, "batch0") {
-            out.insert(
-                "batch0".into(),
-                shaped(|| occs_json(&find_numbers(toks.iter(), lang, 0.0))),
-            );
-        }
-        if let Some(t2) = req.get("toks2").and_then(|x| x.as_array()) {
-            // the twin stream (e.g. a comma token inserted where a token declared itself separated)
-            let toks2: Vec<HTok> = t2
-                .iter()
-                .enumerate()
-                .map(|(i, t)| {
-                    let text = t["t"].as_str().unwrap_or("").to_string();
-                    HTok {
-                        id: i as i64,
-                        lower: text.to_lowercase(),
-                        text,
-                        sep: t["sep"].as_bool().unwrap_or(false),
-                        sp: t.get("sp").and_then(|x| x.as_u64()).map(|x| x as usize),
-                        nan: t["nan"].as_bool().unwrap_or(false),
-                        made_from: Vec::new(),
-                    }
-                })
-                .collect();
-            out.insert(
-                "batch2".into(),
-                shaped(|| occs_json(&find_numbers(toks2.iter(), lang, thr))),
-            );
-        }
-        if wants(req, "batch") {
-            SEP_CALLS.with(|c| c.borrow_mut().clear());
-            out.insert(
-                "batch".into(),
-                shaped(|| occs_json(&find_numbers(toks.iter(), lang, thr))),
-            );
-            let calls: Vec<Value> = SEP_CALLS.with(|c| {
-                c.borrow()
-                    .iter()
-                    .map(|(a, b)| json!([a, b]))
-                    .collect::<Vec<_>>()
-            });
-            out.insert("sep_calls".into(), Value::Array(calls));
-        }
-        if wants(req, "span_t2d") || wants(req, "word_t2d") {
-            // C07 on hinted streams: the words of each span re-validated alone; valid number words left outside
-            let r = catch_unwind(AssertUnwindSafe(|| {
-                let occs = find_numbers(toks.iter(), lang, thr);
-                let mut spans = Vec::new();
-                for o in occs.iter() {
-                    if o.start <= o.end && o.end <= toks.len() {
-                        let words: Vec<&str> = toks[o.start..o.end]
-                            .iter()
-                            .map(|t| t.text.as_str())
-                            .filter(|t| !is_glue(t))
-                            .collect();
-                        let phrase = words.join(" ");
-                        let mut r = t2d_shaped(&phrase, lang);
-                        r["phrase"] = json!(phrase);
-                        spans.push(r);
-                    } else {
-                        spans.push(json!({"st": "bad_span", "v": "", "phrase": ""}));
-                    }
-                }
-                let mut outside = Vec::new();
-                for (i, t) in toks.iter().enumerate() {
-                    if is_glue(&t.text) || t.nan || occs.iter().any(|o| o.start <= i && i < o.end) {
-                        continue;
-                    }
-                    let r = t2d_shaped(&t.text, lang);
-                    if r["st"] != "err" {
-                        outside.push(json!({"i": i, "w": t.text, "st": r["st"], "v": r["v"]}));
-                    }
-                }
-                (spans, outside)
-            }));
-            match r {
-                Ok((spans, outside)) => {
-                    out.insert("span_t2d".into(), st_ok(Value::Array(spans)));
-                    out.insert("word_t2d".into(), st_ok(Value::Array(outside)));
-                }
-                Err(e) => {
-                    out.insert("span_t2d".into(), json!({"st": "panic", "v": panic_msg(e)}));
-                    out.insert("word_t2d".into(), json!({"st": "panic", "v": ""}));
-                }
-            }
-        }
-        if wants(req, "iter") {
-            out.insert(
-                "iter".into(),
-                shaped(|| {
-                    let pulled = Cell::new(0usize);
-                    let input = Counting {
-                        inner: toks.iter(),
-                        pulled: &pulled,
-                    };
-                    let mut it = find_numbers_iter(input, lang, thr);
-                    let before = pulled.get();
-                    let mut items = Vec::new();
-                    let mut guard = 0;
-                    loop {
-                        guard += 1;
-                        if guard > toks.len() + 8 {
-                            break;
-                        }
-                        match it.next() {
-                            Some(o) => {
-                                let mut v = occ_json(&o);
-                                v["pulled"] = json!(pulled.get());
-                                items.push(v);
-                            }
-                            None => break,
-                        }
-                    }
-                    // after the end: must keep answering None
-                    let again1 = it.next().is_none();
-                    let again2 = it.next().is_none();
-                    json!({"before": before, "items": items, "end_pulled": pulled.get(), "none_again": again1 && again2})
-                }),
-            );
-        }
-        if wants(req, "steps") {
-            out.insert(
-                "steps".into(),
-                shaped(|| {
-                    let mut sc = find_numbers_iter(std::iter::empty::<&HTok>(), lang, thr);
-                    let mut steps = Vec::new();
-                    let proj = |sc: &text2num::word_to_digit::FindNumbers<_, _, _>| {
-                        let s = sc.verif_state();
-                        json!({"hn": s.has_number, "dec": s.is_dec, "ip": s.int_part, "ifz": s.int_frozen,
-                               "iord": s.int_is_ordinal, "dp": s.dec_part, "ms": s.match_start, "me": s.match_end,
-                               "q": s.queued, "hold": s.on_hold, "last": s.last_kind, "prev": s.has_previous})
-                    };
-                    for (pos, t) in toks.iter().enumerate() {
-                        sc.verif_push(pos, t);
-                        steps.push(proj(&sc));
-                    }
-                    sc.verif_finalize();
-                    let fin = proj(&sc);
-                    let mut occs = Vec::new();
-                    while let Some(o) = sc.verif_pop() {
-                        occs.push(o);
-                    }
-                    json!({"steps": steps, "final": fin, "occs": occs_json(&occs)})
-                }),
-            );
-        }
-        if wants(req, "stream") {
-            REPLACE_CALLS.with(|c| c.borrow_mut().clear());
-            let input: Vec<HTok> = toks.clone();
-            out.insert(
-                "stream".into(),
-                shaped(|| {
-                    let res = replace_numbers_in_stream(input, lang, thr);
-                    let outv: Vec<Value> = res
-                        .iter()
-                        .map(|t| {
-                            if t.id >= 0 {
-                                json!({"id": t.id, "t": t.text, "from": []})
-                            } else {
-                                json!({"id": -1, "t": t.text, "from": t.made_from})
-                            }
-                        })
-                        .collect();
-                    let calls: Vec<Value> = REPLACE_CALLS.with(|c| {
-                        c.borrow()
-                            .iter()
-                            .map(|(d, ids)| json!({"data": d, "ids": ids}))
-                            .collect()
-                    });
-                    json!({"out": outv, "calls": calls})
-                }),
-            );
-        }
-        Value::Object(out)
-    }
-}
-
-// ---------------------------------------------------------------------------
-// mode chars: Rust's character predicates for the spec's finite alphabet
-
-fn run_chars(req: &Value) -> Value {
-    let cp = req["cp"].as_u64().unwrap_or(0) as u32;
-    match char::from_u32(cp) {
-        None => json!({"cp": cp, "valid": false}),
-        Some(c) => json!({
-            "cp": cp, "valid": true,
-            "alnum": c.is_alphanumeric(), "alpha": c.is_alphabetic(), "ws": c.is_whitespace(),
-            "aws": c.is_ascii_whitespace(),
-            "lower": c.to_lowercase().collect::<String>(), "upper": c.to_uppercase().collect::<String>(),
-        }),
-    }
-}
-
-// ---------------------------------------------------------------------------
-// mode threads (C14): one set of interpreters shared by N threads
-
-fn canonical(v: &Value) -> String {
-    serde_json::to_string(v).unwrap_or_default()
-}
-
-fn run_threads(reqs: Vec<Value>, out: &mut dyn Write, nthreads: usize, seed: u64) {
-    // (0) compile-time: interpreters can be sent to and shared between threads
-    fn assert_send_sync<T: Send + Sync>() {}
-    assert_send_sync::<Language>();
-    assert_send_sync::<English>();
-    assert_send_sync::<French>();
-    assert_send_sync::<German>();
-    assert_send_sync::<Italian>();
-    assert_send_sync::<Spanish>();
-    assert_send_sync::<Dutch>();
-    assert_send_sync::<Portuguese>();
-
-    let reqs = Arc::new(reqs);
-    // (1) reference results: a fresh interpreter for every call
-    let fresh_ix = Interps::new(); // only used for type plumbing; `fresh=true` builds new ones
-    for (k, r) in reqs.iter().enumerate() {
-        let mut r2 = r.clone();
-        if r2["mode"] == "interleave" {
-            r2["alone"] = json!(true); // reference: each number decoded on its own, by a fresh interpreter
-        }
-        let v = run_any(&fresh_ix, &r2, true);
-        writeln!(out, "{}", json!({"k": k, "who": "fresh", "seq": 0, "res": canonical(&v)})).unwrap();
-    }
-    // (2) one long-lived set, sequential, two orders
-    let shared = Arc::new(Interps::new());
-    let n = reqs.len();
-    let mut seq = 0usize;
-    for pass in 0..2 {
-        for j in 0..n {
-            let k = if pass == 0 { j } else { n - 1 - j };
-            let v = run_any(&shared, &reqs[k], false);
-            seq += 1;
-            writeln!(out, "{}", json!({"k": k, "who": "seq", "seq": seq, "res": canonical(&v)})).unwrap();
-        }
-    }
-    // (3) N threads hammering the same shared set, each in its own pseudo-random order
-    let mut handles = Vec::new();
-    for t in 0..nthreads {
-        let reqs = Arc::clone(&reqs);
-        let shared = Arc::clone(&shared);
-        handles.push(std::thread::spawn(move || {
-            let mut state = seed
-                .wrapping_mul(6364136223846793005)
-                .wrapping_add(1442695040888963407u64.wrapping_mul(t as u64 + 1));
-            let mut log = Vec::new();
-            let n = reqs.len();
-            for s in 0..n {
-                state = state
-                    .wrapping_mul(6364136223846793005)
-                    .wrapping_add(1442695040888963407);
-                let k = ((state >> 33) as usize) % n;
-                let v = run_any(&shared, &reqs[k], false);
-                log.push((k, s, canonical(&v)));
-            }
-            log
-        }));
-    }
-    for (t, h) in handles.into_iter().enumerate() {
-        match h.join() {
-            Ok(log) => {
-                for (k, s, res) in log {
-                    writeln!(out, "{}", json!({"k": k, "who": format!("t{}", t), "seq": s, "res": res})).unwrap();
-                }
-            }
-            Err(_) => {
-                writeln!(out, "{}", json!({"k": -1, "who": format!("t{}", t), "seq": 0, "res": "thread-panic"})).unwrap();
-            }
-        }
-    }
-}
-
-struct InterleaveHandler;
-
-impl Handler for InterleaveHandler {
-    /// returns {"a": [steps], "b": [steps]} -- with "alone": true each sequence is decoded on its own,
-    /// otherwise the two builders are fed alternately by the same interpreter (two numbers being decoded at once)
-    fn run<L: LangInterpreter>(&self, lang: &L, req: &Value) -> Value {
-        let empty = Vec::new();
-        let wa: Vec<&str> = req["wa"].as_array().unwrap_or(&empty).iter().map(|w| w.as_str().unwrap_or("")).collect();
-        let wb: Vec<&str> = req["wb"].as_array().unwrap_or(&empty).iter().map(|w| w.as_str().unwrap_or("")).collect();
-        let alone = req["alone"].as_bool().unwrap_or(false);
-        let mut da = DigitString::new();
-        let mut db = DigitString::new();
-        let mut sa = Vec::new();
-        let mut sb = Vec::new();
-        let step = |w: &str, ds: &mut DigitString| -> Value {
-            let st = match catch_unwind(AssertUnwindSafe(|| lang.apply(w, ds))) {
-                Ok(Ok(())) => "ok".to_string(),
-                Ok(Err(e)) => err_name(&e).to_string(),
-                Err(_) => "panic".to_string(),
-            };
-            json!({"st": st, "r": ds.to_string(), "mk": marker_json(&ds.marker)})
-        };
-        if alone {
-            for w in wa.iter() {
-                sa.push(step(w, &mut da));
-            }
-            for w in wb.iter() {
-                sb.push(step(w, &mut db));
-            }
-        } else {
-            let n = wa.len().max(wb.len());
-            for i in 0..n {
-                if i < wa.len() {
-                    sa.push(step(wa[i], &mut da));
-                }
-                if i < wb.len() {
-                    sb.push(step(wb[i], &mut db));
-                }
-            }
-        }
-        json!({"a": sa, "b": sb})
-    }
-}
-
-fn run_any(ix: &Interps, req: &Value, fresh: bool) -> Value {
-    if let Some(vias) = req.get("vias").and_then(|x| x.as_array()) {
-        // C13: the same request through the concrete type, the facade and the ISO-code lookup
-        let mut res = Vec::new();
-        for v in vias {
-            let mut r = req.clone();
-            r.as_object_mut().unwrap().remove("vias");
-            r["via"] = v.clone();
-            res.push(run_any(ix, &r, fresh));
-        }
-        return json!({ "byvia": res });
-    }
-    if req.get("fresh_each").and_then(|x| x.as_bool()).unwrap_or(false) {
-        // every text of the request is run on its own, newly created interpreter (reference results that no
-        // earlier call can have influenced)
-        if let Some(texts) = req.get("texts").and_then(|x| x.as_array()) {
-            let mut all = Vec::new();
-            for t in texts {
-                let mut r = req.clone();
-                let o = r.as_object_mut().unwrap();
-                o.remove("fresh_each");
-                o.insert("texts".into(), json!([t]));
-                if let Value::Object(m) = run_any(ix, &r, true) {
-                    if let Some(Value::Array(a)) = m.get("multi") {
-                        all.extend(a.iter().cloned());
-                    }
-                }
-            }
-            return json!({ "multi": all });
-        }
-    }
-    match req["mode"].as_str().unwrap_or("text") {
-        "text" => dispatch(&TextHandler, ix, req, fresh),
-        "apply" => dispatch(&ApplyHandler, ix, req, fresh),
-        "scan" => dispatch(&ScanHandler, ix, req, fresh),
-        "interleave" => dispatch(&InterleaveHandler, ix, req, fresh),
-        "ds" => run_ds(req),
-        "chars" => run_chars(req),
-        _ => json!({"tool_error": "unknown mode"}),
-    }
-}
-
-// ---------------------------------------------------------------------------
+use std::io::{BufWriter, Write};
 
 fn main() {
     let args: Vec<String> = std::env::args().collect();
-    if args.len() < 4 {
-        eprintln!("usage: t2n-harness <mode> <requests.ndjson> <observations.ndjson> [threads] [seed]");
+    if args.len() < 4 || args[1] == "threads" {
+        eprintln!("usage: t2n-harness <mode> <requests.ndjson> <observations.ndjson>   (threads: use t2n-threads)");
         std::process::exit(2);
     }
-    // the code under test may panic: that is data, recorded in the observation, not on stderr
-    std::panic::set_hook(Box::new(|_| {}));
-    let mode = args[1].as_str();
-    let input = BufReader::new(File::open(&args[2]).expect("open requests"));
+    t2n_harness::silence_panics();
+    let reqs = t2n_harness::load_requests(&args[1], &args[2]);
     let mut out = BufWriter::new(File::create(&args[3]).expect("create observations"));
-    let mut reqs = Vec::new();
-    for line in input.lines() {
-        let line = line.expect("read");
-        if line.trim().is_empty() {
-            continue;
-        }
-        let mut v: Value = serde_json::from_str(&line).expect("request json");
-        if v.get("mode").is_none() {
-            v["mode"] = json!(mode);
-        }
-        reqs.push(v);
-    }
-    if mode == "threads" {
-        let nthreads: usize = args.get(4).and_then(|x| x.parse().ok()).unwrap_or(8);
-        let seed: u64 = args.get(5).and_then(|x| x.parse().ok()).unwrap_or(1);
-        for r in reqs.iter_mut() {
-            if r["mode"] == "threads" {
-                r["mode"] = json!("text");
-            }
-        }
-        run_threads(reqs, &mut out, nthreads, seed);
-    } else {
-        let ix = Interps::new();
-        for r in reqs.iter() {
-            let mut v = run_any(&ix, r, false);
-            if let Some(Value::Array(flat)) = v.get("flat") {
-                for e in flat {
-                    writeln!(out, "{}", e).unwrap();
-                }
-                continue;
-            }
-            if let Value::Object(ref mut m) = v {
-                if let Some(i) = r.get("i") {
-                    m.insert("i".into(), i.clone());
-                }
-                let mut q = r.clone();
-                q.as_object_mut().unwrap().remove("mode");
-                m.insert("q".into(), q);
-            }
-            writeln!(out, "{}", v).unwrap();
-        }
-    }
+    t2n_harness::run_plain(&reqs, &mut out);
     out.flush().unwrap();
 }
